@@ -496,6 +496,134 @@ def translate_opcodes(repo, names):
     return '\n'.join(lines)
 
 
+
+def f64_bits(txt):
+    import struct
+    t = txt.strip()
+    special = {'f64::MAX': 0x7FEFFFFFFFFFFFFF, 'f64::MIN': 0xFFEFFFFFFFFFFFFF, 'f64::INFINITY': 0x7FF0000000000000,
+               'f64::NEG_INFINITY': 0xFFF0000000000000, 'f64::NAN': 0x7FF8000000000000}
+    if t in special:
+        return special[t]
+    try:
+        return struct.unpack('<Q', struct.pack('<d', float(t.replace('_', ''))))[0]
+    except ValueError:
+        raise TranslateError('not a float literal: %r' % txt)
+
+
+def int_const(txt, bits):
+    t = txt.strip().replace('_', '')
+    table = {'i32::MAX': 2**31 - 1, 'i32::MIN': -2**31, 'i64::MAX': 2**63 - 1, 'i64::MIN': -2**63}
+    if t in table:
+        return table[t]
+    return int(t, 0)
+
+
+def translate_consts(repo, names):
+    """constants the theorems rely on: ASCII_CHARS, boundary arrays, Default for Generator, clap defaults,
+    MutatorKind::all_mutators, TypeConfusion's opcode_to_type byte table"""
+    rd = lambda rel: open(os.path.join(repo, rel)).read()
+    out = ["(* GENERATED on every run by tools/gen_src.py from source.rs, mod.rs, cli.rs, mutators/*.rs *)",
+           "From Coq Require Import List NArith ZArith Bool.", "Import ListNotations.",
+           "From PF Require Import Opcodes Config Front.", "", "Module Src.", "Local Open Scope N_scope."]
+    # ASCII_CHARS
+    m = re.search(r'const\s+ASCII_CHARS\s*:\s*&\[u8\]\s*=\s*b"((?:[^"\\]|\\.)*)"\s*;', rd('src/generator/source.rs'))
+    if not m:
+        raise TranslateError('ASCII_CHARS not found')
+    raw, chars, i = m.group(1), [], 0
+    while i < len(raw):
+        if raw[i] == '\\':
+            esc = raw[i + 1]
+            chars.append({'\\': 92, '"': 34, 'n': 10, 't': 9, 'r': 13, "'": 39, '0': 0}[esc])
+            i += 2
+        else:
+            chars.append(ord(raw[i]))
+            i += 1
+    out.append("Definition ascii_chars : list N := [%s]." % '; '.join(map(str, chars)))
+    # Default for Generator
+    src = rd('src/generator/mod.rs')
+    body = re.search(r'impl\s+Default\s+for\s+Generator\s*\{.*?fn\s+default\s*\(\s*\)\s*->\s*Self\s*\{\s*Self\s*\{(.*?)\}\s*\}\s*\}', src, re.S)
+    if not body:
+        raise TranslateError('impl Default for Generator not found')
+    fields = dict((k.strip(), v.strip()) for k, v in re.findall(r'(\w+)\s*:\s*([^,]+),', body.group(1)))
+    for k in ('min_opcodes', 'max_opcodes', 'mutation_rate', 'unsafe_mutations', 'allow_ext_opcodes', 'allow_buffer_opcodes'):
+        if k not in fields:
+            raise TranslateError('Default for Generator: field %s missing' % k)
+    out.append("Definition gen_default_min : N := %d." % int(fields['min_opcodes']))
+    out.append("Definition gen_default_max : N := %d." % int(fields['max_opcodes']))
+    out.append("Definition gen_default_rate : N := %d." % f64_bits(fields['mutation_rate']))
+    out.append("Definition gen_default_flags : list bool := [%s]." % '; '.join(
+        fields[k] for k in ('unsafe_mutations', 'allow_ext_opcodes', 'allow_buffer_opcodes')))
+    if not re.search(r'mutators\s*:\s*Vec::new\(\)', body.group(1)):
+        raise TranslateError('Default for Generator: mutators is not Vec::new()')
+    # clap defaults
+    cli = rd('src/cli.rs')
+    def clap_default(field):
+        mm = re.search(r'#\[arg\(([^\]]*)\)\]\s*pub\s+%s\s*:' % field, cli, re.S)
+        if not mm:
+            raise TranslateError('cli.rs: field %s not found' % field)
+        dv = re.search(r'default_value_t\s*=\s*([0-9_.]+)', mm.group(1))
+        if not dv:
+            raise TranslateError('cli.rs: %s has no default_value_t' % field)
+        return dv.group(1).replace('_', '')
+    out.append("Definition cli_default_min : N := %d." % int(clap_default('min_opcodes')))
+    out.append("Definition cli_default_max : N := %d." % int(clap_default('max_opcodes')))
+    out.append("Definition cli_default_samples : N := %d." % int(clap_default('samples')))
+    out.append("Definition cli_default_rate : N := %d." % f64_bits(clap_default('mutation_rate')))
+    # all_mutators
+    mm = rd('src/mutators/mod.rs').split('#[cfg(test)]')[0]
+    body = fn_body(mm, 'all_mutators')
+    v = re.search(r'vec!\s*\[(.*?)\]', body, re.S)
+    push = re.search(r'if\s+unsafe_mutations\s*\{\s*mutators\.push\(\s*MutatorKind::(\w+)\s*\)\s*;\s*\}', body)
+    if not v or not push:
+        raise TranslateError('all_mutators: unexpected shape')
+    kinds = re.findall(r'MutatorKind::(\w+)', v.group(1))
+    rest = re.sub(r'let\s+mut\s+mutators\s*=\s*vec!\s*\[.*?\]\s*;|if\s+unsafe_mutations\s*\{[^}]*\}|mutators|//[^\n]*|\s+', '', body, flags=re.S)
+    if rest:
+        raise TranslateError('all_mutators: unexpected statements %r' % rest[:60])
+    out.append("Definition all_mutators (unsafe_mutations : bool) : list mkind :=\n  [%s] ++ (if unsafe_mutations then [K%s] else [])." % (
+        '; '.join('K' + k for k in kinds), push.group(1)))
+    # create(): which constructor gets the unsafe flag
+    cbody = fn_body(mm, 'create')
+    arms = re.findall(r'MutatorKind::(\w+)\s*=>\s*(?:\{\s*panic!|Box::new\(\s*(\w+)(::new\(\s*unsafe_mode\s*\))?)', cbody)
+    ctor = {'BitFlipMutator': 'MBitflip', 'BoundaryMutator': 'MBoundary', 'OffByOneMutator': 'MOffByOne', 'StringLengthMutator': 'MStringLen',
+            'CharacterMutator': 'MCharacter', 'MemoIndexMutator': 'MMemoIndex', 'TypeConfusionMutator': 'MTypeConf'}
+    lines = []
+    for k, c, flag in arms:
+        if not c:
+            lines.append("  | K%s => None" % k)
+        elif c not in ctor:
+            raise TranslateError('create: unknown mutator type %s' % c)
+        else:
+            lines.append("  | K%s => Some (%s%s)" % (k, ctor[c], ' unsafe_mode' if flag else ''))
+    out.append("Definition create (unsafe_mode : bool) (k : mkind) : option mutator :=\n  match k with\n%s\n  end." % '\n'.join(lines))
+    # boundary arrays
+    b = rd('src/mutators/boundary.rs').split('#[cfg(test)]')[0]
+    arrs = re.findall(r'let\s+boundaries\s*=\s*\[(.*?)\]\s*;', b, re.S)
+    if len(arrs) != 3:
+        raise TranslateError('boundary.rs: expected three boundary arrays, found %d' % len(arrs))
+    def items(a):
+        return [x.strip() for x in re.sub(r'//[^\n]*', '', a).split(',') if x.strip()]
+    out.append("Definition int_boundaries : list Z := [%s]%%Z." % '; '.join(str(int_const(x, 32)) for x in items(arrs[0])))
+    out.append("Definition long_boundaries : list Z := [%s]%%Z." % '; '.join(str(int_const(x, 64)) for x in items(arrs[1])))
+    out.append("Definition float_boundaries : list N := [%s]." % '; '.join(str(f64_bits(x)) for x in items(arrs[2])))
+    # opcode_to_type
+    t = rd('src/mutators/typeconfusion.rs').split('#[cfg(test)]')[0]
+    body = fn_body(t, 'opcode_to_type')
+    tnum = {'Int': 1, 'Float': 2, 'String': 3, 'Bytes': 4, 'List': 5, 'Dict': 6, 'Tuple': 7, 'None': 8, 'Bool': 9}
+    conds = []
+    for pats, ty in re.findall(r'((?:0x[0-9a-fA-F]+\s*\|?\s*)+)=>\s*Some\(\s*StackType::(\w+)\s*\)', re.sub(r'//[^\n]*', '', body)):
+        bs = [int(x, 16) for x in re.findall(r'0x[0-9a-fA-F]+', pats)]
+        conds.append((bs, tnum[ty]))
+    if not conds or not re.search(r'_\s*=>\s*None', body):
+        raise TranslateError('opcode_to_type: unexpected shape')
+    e = "0"
+    for bs, ty in reversed(conds):
+        e = "if %s then %d else %s" % (' || '.join('(b =? %d)' % x for x in bs), ty, e)
+    out.append("Definition byte_type (b : N) : N :=\n  %s." % e)
+    out += ["End Src.", ""]
+    return '\n'.join(out)
+
+
 def write_if_changed(path, text):
     if os.path.exists(path) and open(path).read() == text:
         return False
@@ -510,10 +638,10 @@ def main():
     os.makedirs(out, exist_ok=True)
     names = cpython_names()
     status = 0
-    for fname, fn in (('SrcOpcodes.v', translate_opcodes), ('SrcCanEmit.v', translate_can_emit)):
+    for fname, fn in (('SrcOpcodes.v', translate_opcodes), ('SrcCanEmit.v', translate_can_emit), ('SrcConsts.v', translate_consts)):
         try:
             text = fn(repo, names)
-        except TranslateError as e:
+        except (TranslateError, KeyError, ValueError, IndexError) as e:
             # leave a file that cannot compile, naming the reason: a broken obligation
             text = '(* TRANSLATION FAILED: %s *)\nDefinition translation_failed : False := I.\n' % str(e).replace('*)', '* )')
             print('TRANSLATE-ERROR %s: %s' % (fname, e))
